@@ -323,10 +323,39 @@ def spec_lookup(a):
     return "err"
 
 
+def run_shared(entries, idx, sub, t, val):
+    """two local nodes built from ONE ObjectDictionary object, each with its own remote counterpart: the value
+    written to node 5 must not show on node 6"""
+    shared = c02.build_od(entries)
+    hub = Hub("inline")
+    outs = []
+    nodes = []
+    for nid in (5, 6):
+        n1, n2 = InlineNet(hub), InlineNet(hub)
+        remote = canopen.RemoteNode(nid, c02.build_od(entries))
+        local = canopen.LocalNode(nid, shared)
+        n1.add_node(remote)
+        n2.add_node(local)
+        nodes.append(remote)
+    tt = None if t == "n" else int(t)
+    try:
+        accessor(nodes[0], idx, sub, entries, "idx").raw = c02.py_val(val, tt)
+        outs.append("ok")
+    except Exception as e:
+        outs.append(c02_err(e))
+    try:
+        outs.append("ok " + c04.show_val(accessor(nodes[1], idx, sub, entries, "idx").raw, str(tt)))
+    except Exception as e:
+        outs.append(c02_err(e))
+    return " | ".join(outs)
+
+
 def run_impl(op):
     a = op.split(" ")
     if a[0] == "lk":
         return run_lookup(a)
+    if a[0] == "shared":
+        return run_shared(c02.parse_od(a[1]), int(a[2]), int(a[3]), a[4], c02.parse_val(a[5]))
     if a[0] == "typed":
         import random
         return run_typed(c02.parse_od(a[1]), int(a[2]), int(a[3]), a[4], c02.parse_val(a[5]), a[6],
@@ -367,6 +396,18 @@ def oracle(op, out):
         return None if exp is None or exp == out else f"lookup {' '.join(a[2:])} reached {out}, the dictionary says {exp}"
     if a[0] == "multi":
         return None if out == "ok" else f"concurrent transfers to distinct nodes interfered: {out}"
+    if a[0] == "shared":
+        entries = c02.parse_od(a[1])
+        vd, _ = c02.find_entry(entries, int(a[2]), int(a[3]))
+        t = None if a[4] == "n" else int(a[4])
+        if vd is None or c02.cia_encode(t, c02.parse_val(a[5])) is None:
+            return None
+        parts = out.split(" | ")
+        src = vd[2] if vd[2] is not None else vd[3]
+        exp = f"err aborted {0x060A0023}" if src is None else "ok " + expected_read(t, src)
+        if parts[0] == "ok" and parts[1] != exp:
+            return f"shared dictionary: node 6 (never written) reads {parts[1]} after node 5 was written; its own value is {exp}"
+        return None
     entries = c02.parse_od(a[1])
     idx, sub = int(a[2]), int(a[3])
     t = None if a[4] == "n" else int(a[4])
@@ -390,7 +431,7 @@ def oracle(op, out):
 
 def signature(op, what):
     a = op.split(" ")
-    return f"{a[0]}:{a[4] if a[0] == 'typed' else a[2]}:{what.split(' ')[0]}"
+    return f"{a[0]}:{a[4] if a[0] in ('typed', 'shared') else a[2]}:{what.split(' ')[0]}"
 
 
 def nontrivial(op, out):
@@ -399,12 +440,14 @@ def nontrivial(op, out):
     if op.startswith("multi"):
         return out == "ok"
     p = out.split(" | ")
+    if op.startswith("shared"):
+        return p[0] == "ok"
     return p[0] == "ok" and p[2].startswith("ok") and p[3] != "err"
 
 
 def classify(op, out):
     a = op.split(" ")
-    return f"{a[0]}:{a[-1] if a[0] == 'typed' else a[2]}"
+    return f"{a[0]}:{a[-1] if a[0] == 'typed' else a[4] if a[0] == 'shared' else a[2]}"
 
 
 def shrink_candidates(op):
@@ -489,6 +532,13 @@ def gen_ops(tier, rng):
             if kind == "v" and delivery.endswith("dot"):
                 delivery = delivery.replace("dot", "name")
             yield f"typed {c02.od_token(entries)} {idx} {sub} {t} {c02.val_token(val)} {delivery}"
+    # two local nodes built from one dictionary object: what is written to one does not show on the other
+    for t in sorted(c04.SPEC) + [0x01, 0x08, 0x09, 0x0A]:
+        vals = values(t, rng, "quick")
+        for val in rng.sample(vals, min(3, len(vals))):
+            other = rng.choice(vals)
+            for vd in ((t, 0, None, None), (t, 0, None, other), (t, 0, other, None)):
+                yield f"shared {c02.od_token([('v', 0x2000, vd)])} 8192 0 {t} {c02.val_token(val)}"
     # lookups: by index, by name, dotted, members by sub-index and name; well-formed and not
     pool = ["A", "B", "Dev", "Dev.x", "x", "Status", "Rec", "1018", "a_b", "Zed"]
     for _ in range(300 if tier == "quick" else 3000):
